@@ -144,14 +144,19 @@ Fixpoint write (base : N) (ds : list deps) (st : state) : state :=
   match ds with [] => st | d :: t => (base, d) :: write (N.succ base) t st end.
 
 Section Eval.
+  (* the bits that are read when bit n is read: [n] itself in the design as it is; all bits of n's
+     atom when the design is seen through the detector's partition (one SSA version per atom) *)
+  Variable rdm : node -> list node.
   (* how a call is evaluated: function index, argument vectors, the caller's state *)
   Variable call : nat -> list dvec -> state -> dvec.
   Variable st : state.
 
+  Definition rdb (n : node) : deps := unions (map (rd st) (rdm n)).
+
   Fixpoint eval (e : dexp) : dvec :=
     match e with
     | DConst w => repeat [] w
-    | DRef base len => map (rd st) (nodes_from base len)
+    | DRef base len => map rdb (nodes_from base len)
     | DCat parts => (fix cat (l : list dexp) : dvec :=
                        match l with [] => [] | p :: t => eval p ++ cat t end) parts
     | DBit a b => let va := eval a in let vb := eval b in
@@ -175,10 +180,11 @@ Section Eval.
 End Eval.
 
 Section Exec.
+  Variable rdm : node -> list node.
   Variable call : nat -> list dvec -> state -> dvec.
 
   Definition conds_deps (st : state) (cs : list dexp) : deps :=
-    unions (map (fun c => vall (eval call st c)) cs).
+    unions (map (fun c => vall (eval rdm call st c)) cs).
 
   (* the bits an arm wrote = the entries it put in front of the state it started from *)
   Definition delta (st out : state) : list node := map fst (firstn (length out - length st) out).
@@ -199,7 +205,7 @@ Section Exec.
   Fixpoint exec (s : stmt) (ctl : deps) (st : state) {struct s} : state :=
     match s with
     | SAssign base len e =>
-        write base (map (union ctl) (vtake (eval call st e) 0 len)) st
+        write base (map (union ctl) (vtake (eval rdm call st e) 0 len)) st
     | SBranch cs arms =>
         let c := union ctl (conds_deps st cs) in
         merge st (map (fun arm =>
@@ -213,7 +219,7 @@ End Exec.
 
 (* calls are inlined; [fuel] bounds the call depth (functions are not recursive: a recursive
    function is one of the constructs the detector documents as opaque) *)
-Fixpoint callF (fs : list func) (fuel : nat) (f : nat) (args : list dvec) (st : state) : dvec :=
+Fixpoint callF (rdm : node -> list node) (fs : list func) (fuel : nat) (f : nat) (args : list dvec) (st : state) : dvec :=
   match fuel with
   | O => []
   | S k =>
@@ -225,12 +231,13 @@ Fixpoint callF (fs : list func) (fuel : nat) (f : nat) (args : list dvec) (st : 
                           | (b, w) :: ft, a :: at_ => bind ft at_ (write b (vtake a 0 w) s)
                           | _, _ => s
                           end) (f_formals fn) args st in
-          let out := exec_block (callF fs k) (f_body fn) [] bound in
+          let out := exec_block rdm (callF rdm fs k) (f_body fn) [] bound in
           map (rd out) (nodes_from (fst (f_ret fn)) (snd (f_ret fn)))
       end
   end.
 
-Definition call_of (fs : list func) : nat -> list dvec -> state -> dvec := callF fs (S (length fs)).
+Definition call_of (rdm : node -> list node) (fs : list func) : nat -> list dvec -> state -> dvec :=
+  callF rdm fs (S (length fs)).
 
 (* the final version of every bit a block wrote (first occurrence = newest) *)
 Fixpoint finals (st : state) (seen : list node) : graph :=
@@ -262,34 +269,34 @@ Definition quotient (cls : node -> node) (g : graph) : graph :=
 
 (* [cls]: the partition through which the detector's port-level summary of a child is taken
    (identity when the design is lowered as it is) *)
-Fixpoint lower (cls : node -> node) (fs : list func) (it : item) {struct it} : graph :=
+Fixpoint lower (rdm : node -> list node) (cls : node -> node) (fs : list func) (it : item) {struct it} : graph :=
   match it with
-  | IAssign base len e => entries base (vtake (eval (call_of fs) [] e) 0 len)
-  | IComb body => finals (exec_block (call_of fs) body [] []) []
+  | IAssign base len e => entries base (vtake (eval rdm (call_of rdm fs) [] e) 0 len)
+  | IComb body => finals (exec_block rdm (call_of rdm fs) body [] []) []
   | IInst portlevel off cfs child ins outs =>
       let cg := shift off ((fix low (l : list item) : graph :=
-                              match l with [] => [] | c :: t => lower cls cfs c ++ low t end) child) in
+                              match l with [] => [] | c :: t => lower rdm cls cfs c ++ low t end) child) in
       if portlevel then
         let qg := quotient cls cg in
         cg ++ flat_map (fun o => match o with (tb, len, cb) =>
                  let feeding := flat_map (fun p => match p with (pb, w, e) =>
                                    if reaches qg (map cls (nodes_from (off + cb) len))
                                                  (map cls (nodes_from (off + pb) w))
-                                   then vall (eval (call_of fs) [] e) else [] end) ins in
+                                   then vall (eval rdm (call_of rdm fs) [] e) else [] end) ins in
                  entries tb (repeat feeding len) end) outs
       else
         cg ++ flat_map (fun p => match p with (pb, w, e) =>
-                 entries (off + pb) (vtake (eval (call_of fs) [] e) 0 w) end) ins
+                 entries (off + pb) (vtake (eval rdm (call_of rdm fs) [] e) 0 w) end) ins
            ++ flat_map (fun p => match p with (tb, len, cb) =>
                  entries tb (map (fun n => [n]) (nodes_from (off + cb) len)) end) outs
   end.
 
-Definition lower_module (cls : node -> node) (fs : list func) (items : list item) : graph :=
-  flat_map (lower cls fs) items.
+Definition lower_module (rdm : node -> list node) (cls : node -> node) (fs : list func) (items : list item) : graph :=
+  flat_map (lower rdm cls fs) items.
 
 (* the reference verdict: the design as it is, bit by bit *)
 Definition design_has_cycle (fs : list func) (items : list item) : bool :=
-  has_cycle (lower_module (fun n => n) fs items).
+  has_cycle (lower_module (fun n => [n]) (fun n => n) fs items).
 
 (* ------------------------------------------------------------------------------------------ *)
 (** * Part 4: quotient by a partition of the bits *)
@@ -304,6 +311,15 @@ Fixpoint cls_of (tab : list (N * N * N)) (n : N) : N :=
   | (s, l, c) :: t => if (s <=? n) && (n <? s + l) then c else cls_of t n
   end.
 
-(* the verdict seen through a partition *)
+(* all bits of the class of n *)
+Definition members_of (tab : list (N * N * N)) (n : N) : list N :=
+  let c := cls_of tab n in
+  match flat_map (fun e => match e with (s, l, c') => if c' =? c then nodes_from s (N.to_nat l) else [] end) tab with
+  | [] => [n]
+  | l => if mem_n n l then l else [n]
+  end.
+
+(* the verdict seen through a partition: one SSA version per class (reading a bit reads its whole
+   class) and the class graph *)
 Definition design_has_cycle_q (tab : list (N * N * N)) (fs : list func) (items : list item) : bool :=
-  has_cycle (quotient (cls_of tab) (lower_module (cls_of tab) fs items)).
+  has_cycle (quotient (cls_of tab) (lower_module (members_of tab) (cls_of tab) fs items)).
